@@ -24,7 +24,7 @@ Print Assumptions C17_tr_card_m_rejected.
    normalize_transform *)
 Theorem C17_tr_lengths_never_13 : forall T (S : Scalar T) (l : list (trc (T:=T))) r,
   stage_trs S l [] = Ok r -> forall p, In p r -> snd p <> 13%nat.
-Proof. intros T S l r H. eapply stage_trs_lengths; [exact H|]. intros p []. Qed.
+Proof. exact @p_C17_tr_lengths_never_13. Qed.
 Print Assumptions C17_tr_lengths_never_13.
 
 (* the entry counts normalize_transform accepts: 0-3, 6, 9, 12, 13 with m = 1,
@@ -84,7 +84,7 @@ Theorem C17_inline_m_rejected : forall T (S : Scalar T) star trs (ps rest : list
   seqb S (last (map tval ps) (s1 S)) (s1 S) = false ->
   parse_trcl S star trs (ps ++ rest) = Err ETransformation /\
   fill_params S star trs (ps ++ rest) = Err ETransformation.
-Proof. intros; split; [apply trcl_m_rejected|apply inline_m_rejected]; assumption. Qed.
+Proof. exact @p_C17_inline_m_rejected. Qed.
 Print Assumptions C17_inline_m_rejected.
 
 (* ---------------- surfaces ---------------- *)
@@ -108,12 +108,7 @@ Theorem C17_macro_arity_exact : forall T (S : Scalar T) mn (p : list T),
   (In (List.length p) (macro_arities mn) -> is_ok (surface_check S mn p) = true) /\
   (~ In (List.length p) (macro_arities mn) -> is_ok (surface_check S mn p) = false) /\
   (p <> [] -> ~ In (List.length p) (macro_arities mn) -> surface_check S mn p = Err EMacroBody).
-Proof.
-  intros T S mn p Hm. split; [|split].
-  - apply macro_arity_accepted; assumption.
-  - apply macro_arity_rejected; assumption.
-  - intros; apply macro_arity_error; assumption.
-Qed.
+Proof. exact @p_C17_macro_arity_exact. Qed.
 Print Assumptions C17_macro_arity_exact.
 
 (* elementary surfaces: a card is accepted exactly when [elem_accepts] says so
@@ -142,12 +137,12 @@ Theorem C17_surplus_surface_params_refuted : forall T (S : Scalar T) (x : T) (su
   surface_check S "c/z" (x :: x :: x :: surplus) = Ok (1%nat, 1%nat) /\
   surface_check S "sx" (x :: x :: surplus) = Ok (1%nat, 1%nat) /\
   is_ok (surface_check S "sq" (x :: x :: x :: x :: x :: x :: x :: x :: x :: x :: surplus)) = true.
-Proof. intros; repeat split; reflexivity. Qed.
+Proof. exact @p_C17_surplus_surface_params_refuted. Qed.
 Print Assumptions C17_surplus_surface_params_refuted.
 
 Theorem C17_gq_short_params_refuted : forall T (S : Scalar T) (x : T) (p : list T),
   surface_check S "gq" (x :: p) = Ok (1%nat, 1%nat).
-Proof. intros; reflexivity. Qed.
+Proof. exact @p_C17_gq_short_params_refuted. Qed.
 Print Assumptions C17_gq_short_params_refuted.
 
 (* ---------------- lattices ---------------- *)
@@ -256,13 +251,13 @@ Print Assumptions C17_facet_range_rejected.
 Theorem C17_facet_check_exact : forall nt4 k,
   (facet_check nt4 k = Ok tt <-> (k <= nt4)%nat) /\
   ((nt4 < k)%nat -> facet_check nt4 k = Err ECellConversion).
-Proof. intros; split; [apply facet_check_exact|apply facet_range_rejected]. Qed.
+Proof. exact @p_C17_facet_check_exact. Qed.
 Print Assumptions C17_facet_check_exact.
 
 (* the full statement (facets are 1..n) is false of the code: facet 0 passes
    pot_expand_surfs for every surface *)
 Theorem C17_facet_zero_refuted : forall nt4, facet_check nt4 0 = Ok tt.
-Proof. intros; reflexivity. Qed.
+Proof. exact @p_C17_facet_zero_refuted. Qed.
 Print Assumptions C17_facet_zero_refuted.
 
 (* ---------------- FILL arrays ---------------- *)
@@ -288,13 +283,12 @@ Print Assumptions C17_fill_array_length_exact.
 
 (* ... but an over-long array is not rejected: exactly three surplus entries
    become a 12-entry transformation (a translation) *)
-Definition tk {T} (S : Scalar T) (s : string) (z : Z) : tok (T:=T) := mkTok s (sofZ S z) z.
 Theorem C17_fill_array_surplus_3_refuted : forall T (S : Scalar T),
   parse_fill S false []
     [tk S "0:1" 0; tk S "0:1" 0; tk S "0:0" 0; tk S "2" 2; tk S "2" 2; tk S "2" 2; tk S "2" 2;
      tk S "7" 7; tk S "8" 8; tk S "9" 9]%Z
   = Ok (mkFill (Some [(0, 1); (0, 1); (0, 0)]%Z) [Some 2; Some 2; Some 2; Some 2]%Z 12, []).
-Proof. intros; vm_compute; reflexivity. Qed.
+Proof. exact @p_C17_fill_array_surplus_3_refuted. Qed.
 Print Assumptions C17_fill_array_surplus_3_refuted.
 
 (* ---------------- IMP cards, materials, --lattice strings ---------------- *)
